@@ -2162,7 +2162,7 @@ Qed.
    initial stops 0 (not fixed) and 1 (fixed), vehicle 1 none *)
 Definition f_mat : list (list Z) := map (fun _ => [1;1;1;1;1;1;1]%Z) [0;0;0;0;0;0;0].
 Definition f_stop (p : Z) : istop := mkIStop [] 0%Z [] None p [] None 0%Z 0%Z.
-Definition f_veh : ivehicle := mkIVehicle None [] 0%Z None None None None None [] 0%Z true true 0%Z 0%Z.
+Definition f_veh : ivehicle := mkIVehicle None [] 0%Z None None None None None [] 0%Z true true 0%Z 0%Z 1%Z 1%Z.
 Definition f_inp : input :=
   mkInput [] [f_stop 10%Z; f_stop 10%Z; f_stop 7%Z] [f_veh; f_veh]
           [mkIUnit [0; 1] [(0, 1, false)]; mkIUnit [2] []]
@@ -2176,7 +2176,7 @@ Definition f_s2 : state := Eval vm_compute in fst (g_unplan_vehicle f_gi f_s1 0)
 
 Lemma f_wf : wf_input f_inp.
 Proof.
-  split; [|split; [|split; [|exact (Forall_nil _)]]].
+  split; [|split; [|split; [|split; [exact (Forall_nil _)|mult_wf]]]].
   - vm_compute. constructor; [simpl; lia|]. constructor; [simpl; lia|]. constructor; [simpl; tauto|constructor].
   - intros x. vm_compute. lia.
   - intros u Hu. vm_compute in Hu. destruct Hu as [<-|[<-|[]]]; discriminate.
